@@ -257,3 +257,18 @@ func TestC19_Programs(t *testing.T) {
 }
 
 var _ = fmt.Sprint
+
+// FuzzC19 is the native coverage-guided target (thorough tier): the fuzzer's
+// bytes are decoded into lexeme and layout choices by the same generator.
+func FuzzC19(f *testing.F) {
+	f.Add([]byte{0})
+	f.Add([]byte("0 0x1F é // c\n\"a\" \"\"`raw`"))
+	f.Fuzz(rapid.MakeFuzz(func(t *rapid.T) {
+		c := genC19(t)
+		if v := checkC19(c); v != nil {
+			recordFail("TestC19_Lexemes", v, c, c19Src(c))
+			flushFail("C19", "TestC19_Lexemes")
+			t.Fatalf("%s: %s", v.Clause, clip(v.Detail, 2000))
+		}
+	}))
+}
